@@ -399,8 +399,22 @@ def _r6_option_condition_is_equality(ctx, C1):
             for bb, t2 in b.calls():
                 if tuple(t2["dest"]) == (L,):
                     last = (callee_name(t2) or "?").rsplit("::", 1)[-1]
-                    if not ((last == "eq" and pol > 0) or (last == "ne" and pol < 0)):
-                        other.append((bb, t2["sp"], last))
+                    if (last == "eq" and pol > 0) or (last == "ne" and pol < 0):
+                        continue
+                    if (last == "is_none" and pol > 0) or (last == "is_some" and pol < 0):
+                        # `(None, sent) => sent.is_none()`: the absence test of the option the request carries, made where the
+                        # configured value was found to be `null`
+                        a = [norm(x) for x in T.call_args(bb)]
+                        of_get = bool(a) and any(y[0] == "call" and str(y[1]).endswith("::get") for y in subterms(a[0]))
+                        wanted_null = []
+                        for b3, t3 in b.terms():
+                            if t3["k"] == "switch" and b3 in loop:
+                                d3 = norm(T.at_term(t3["discr"], b3))
+                                if d3[0] == "discr" and not any(y[0] == "call" and str(y[1]).endswith("::get") for y in subterms(norm(d3[1]))):
+                                    wanted_null += discr_edges(cfg, b3, 0)
+                        if of_get and edge_dominated(cfg, wanted_null, bb):
+                            continue
+                    other.append((bb, t2["sp"], last))
         trace(pl[0], pol)
         if not defs_true and not other and not seen_l:
             continue
